@@ -70,6 +70,14 @@ def impl(case):
         G = build(case["g"], case.get("cls", "PAG"), lab)
     except Exception as e:
         return {"build": "err:" + type(e).__name__}
+    if C.warm_decide(case, 4):
+        # query, edit the same object in place, query again (see common.warmup)
+        def _warm():
+            for q in case.get("Q", [])[:2]:
+                impl_sdp(G, lab, q)
+            for s_ in case.get("S", [])[:2]:
+                impl_pd(G, lab, s_)
+        C.warmup(G, _warm, layers=("circle", "directed", "bidirected", "undirected"))
     before = C.snapshot(G)
     out = {"sdp": [impl_sdp(G, lab, q) for q in case.get("Q", [])],
            "is": "".join(impl_is(G, lab, p) for p in case.get("P", [])),
